@@ -638,3 +638,124 @@ def r08_5_parse_result_discipline(ctx: Ctx) -> RuleResult:
                 else:
                     rr.ok()
     return rr
+
+
+# ------------------------------------------------------------------------------------------- trusted day packing
+
+
+@rule("C08")
+def r08_6_month_length_guard(ctx: Ctx) -> RuleResult:
+    """The buckets build dates through the *trusted* packing `_YearMonthDayCalendar._ctor(year=, month=, day=, ...)` ("avoid further
+    revalidation"): nothing downstream checks the day against the month's length, so on every path to the packing an earlier
+    statement must have left with a failure result when `day > <calendar>.get_days_in_month(year, month)`.  Decided structurally:
+    a preceding sibling `if <test>: <leave>` (in a block enclosing the packing) whose negated test implies the bound, for the
+    same year / month / day expressions (temporaries inlined).  `day <= 28` is accepted as implying the bound for the packing that
+    hard-wires the ISO ordinal only."""
+    from ..exc import _terminates
+    from ..kit import inline_locals
+
+    rr = RuleResult("R08.6", "every trusted year/month/day packing in the text layer is dominated by a day <= days-in-month(year, month) guard that leaves with a failure result", min_instances=2)
+    for f in sorted(set(ctx.M.func_of_node.values()), key=lambda x: x.qual):
+        if "/text/" not in f.mod.rel or isinstance(f.node, ast.Lambda):
+            continue
+        for c in own_nodes(f.node):
+            if not (isinstance(c, ast.Call) and unparse(c.func) == "_YearMonthDayCalendar._ctor"):
+                continue
+            kw = {k.arg: k.value for k in c.keywords}
+            if not {"year", "month", "day"} <= set(kw):
+                continue
+            rr.inst()
+            n = lambda e: unparse(inline_locals(f.node, e))  # noqa: E731
+            Y, Mo, D = n(kw["year"]), n(kw["month"]), n(kw["day"])
+            iso = "calendar_ordinal" in kw and unparse(kw["calendar_ordinal"]).endswith("_CalendarOrdinal.ISO")
+
+            def bound(t: ast.expr) -> bool:
+                """not t  ==>  D <= days_in_month(Y, Mo)"""
+                if isinstance(t, ast.BoolOp):
+                    return (any if isinstance(t.op, ast.Or) else all)(bound(v) for v in t.values)
+                if isinstance(t, ast.Compare) and len(t.ops) == 1:
+                    a, b, op = t.left, t.comparators[0], t.ops[0]
+                    if isinstance(op, ast.Lt):
+                        a, b, op = b, a, ast.Gt()
+                    if isinstance(op, ast.Gt) and n(a) == D:
+                        if isinstance(b, ast.Call) and isinstance(b.func, ast.Attribute) and b.func.attr == "get_days_in_month" and len(b.args) == 2:
+                            return n(b.args[0]) == Y and n(b.args[1]) == Mo
+                        if iso and isinstance(b, ast.Constant) and isinstance(b.value, int) and b.value <= 28:
+                            return True
+                return False
+
+            found = None
+            cur: ast.AST = c
+            while cur is not f.node and found is None:
+                par = getattr(cur, "_parent", None)
+                if par is None:
+                    break
+                for fld in ("body", "orelse", "finalbody"):
+                    blk = getattr(par, fld, None)
+                    if isinstance(blk, list) and any(cur is s for s in blk):
+                        idx = next(i for i, s in enumerate(blk) if s is cur)
+                        for s in blk[:idx]:
+                            if isinstance(s, ast.If) and not s.orelse and _terminates(s.body) and bound(s.test):
+                                found = s
+                cur = par
+            if found is not None:
+                rr.ok({"fn": f.qual, "packing": f"year={Y}, month={Mo}, day={D}", "guard": unparse(found.test)[:120]})
+            else:
+                rr.fail(f.qual, f"trusted packing of (year={Y}, month={Mo}, day={D}) is not dominated by a `day > get_days_in_month(year, month)` failure exit: some path reaches it with an unchecked day (a date such as 31 February is built, or the conversion raises later)", ctx.loc(f, c))
+    return rr
+
+
+@rule("C08")
+def r08_7_embedded_fields(ctx: Ctx) -> RuleResult:
+    """Embedded date / time patterns hand their parsed value to the outer bucket field by field.  The outer bucket's
+    `calculate_value` arm for EMBEDDED_DATE / EMBEDDED_TIME then builds the value from those fields without looking at anything
+    else, so every field that arm reads must have been stored by every parse action registered under that flag - a field left
+    at its template default (e.g. the calendar) makes the validated constructor raise, or silently changes the value."""
+    rr = RuleResult("R08.7", "every bucket field read by an EMBEDDED_DATE / EMBEDDED_TIME arm of calculate_value is stored by every embedded parse action registered under that flag", min_instances=4)
+    M = ctx.M
+    reads: dict[str, tuple[set[str], str]] = {}
+    for f in list(M.func_of_node.values()):
+        if "/text/" not in f.mod.rel or f.cls is None or "Bucket" not in f.cls.name or isinstance(f.node, ast.Lambda):
+            continue
+        for s in own_nodes(f.node):
+            if isinstance(s, ast.If) and isinstance(s.test, ast.Call) and unparse(s.test.func).endswith("used_fields.has_any") and s.test.args:
+                flag = unparse(s.test.args[0]).split(".")[-1]
+                if flag.startswith("EMBEDDED_"):
+                    rd = {n.attr for b in s.body for n in ast.walk(b) if isinstance(n, ast.Attribute) and isinstance(n.value, ast.Name) and n.value.id == f.self_name and isinstance(n.ctx, ast.Load) and n.attr.startswith("_") and not n.attr.startswith("__")}
+                    rd = {a for a in rd if M.find_method(f.cls, a) is None}  # fields, not helper methods
+                    reads[flag] = (rd, f.qual)
+    if set(reads) != {"EMBEDDED_DATE", "EMBEDDED_TIME"}:
+        raise AnalysisError(f"embedded arms of calculate_value not found (got {sorted(reads)})")
+    builder = M.cls("_SteppedPatternBuilder")
+    for f in sorted(builder.all_defs, key=lambda x: x.qual):
+        if isinstance(f.node, ast.Lambda):
+            continue
+        for c in own_nodes(f.node):
+            if not (isinstance(c, ast.Call) and isinstance(c.func, ast.Attribute) and c.func.attr == "_add_field" and c.args):
+                continue
+            flag = unparse(c.args[0]).split(".")[-1]
+            if flag not in reads:
+                continue
+            # the block (function body / match arm) that registers the flag also defines the parse action
+            stmt: ast.AST = c
+            while not isinstance(stmt, ast.stmt):
+                stmt = stmt._parent  # type: ignore[attr-defined]
+            par = stmt._parent  # type: ignore[attr-defined]
+            blk = next((b for fld in ("body", "orelse") for b in [getattr(par, fld, None)] if isinstance(b, list) and any(stmt is s for s in b)), None)
+            defs = [s for s in (blk or []) if isinstance(s, ast.FunctionDef)]
+            acts = []
+            for d in defs:
+                st = {t.attr for n in ast.walk(d) if isinstance(n, ast.Assign) for t in n.targets if isinstance(t, ast.Attribute) and isinstance(t.value, ast.Name)}
+                if st:
+                    acts.append((d, st))
+            rr.inst()
+            need, consumer = reads[flag]
+            if not acts:
+                rr.fail(f.qual, f"registers {flag} but no parse action storing bucket fields is defined next to it", ctx.loc(f, c))
+                continue
+            bad = [(d.name, sorted(need - st)) for d, st in acts if need - st]
+            if bad:
+                rr.fail(f.qual, f"{flag}: parse action `{bad[0][0]}` does not store {bad[0][1]}, which {consumer} reads to build the value (the field keeps its template default)", ctx.loc(f, acts[0][0]))
+            else:
+                rr.ok({"producer": f.qual, "flag": flag, "fields": sorted(need)})
+    return rr
